@@ -66,6 +66,8 @@ Next ==
     \/ PrepDrop("return")
     \/ \E id \in LiveIds, at \in {1, 8, 16} : Split(id, at)
     \/ ScopeTwice(<<L(40, 32), L(24, 4)>>)
+    \/ \E tw \in TwFams, o \in Bools, m \in Bools, i \in Bools, f \in Bools : AllocTryWith(tw, o, m, i, f)
+    \/ AllocValue("copy_u8", 3, FALSE)
 
 Spec == Init /\ [][Next]_vars
 
@@ -107,6 +109,11 @@ SimStep ==
     \/ (CanFail /\ PrepPush(TRUE))
     \/ PrepCommit
     \/ PrepDrop(R({"return", "unwind"}))
+    \/ (\E tw \in {R(TwFams)} : AllocTryWith(tw, R(Bools), R(Bools), FALSE, FALSE))
+    \/ (\E tw \in {R(TwFams)} : AllocTryWith(tw, R(Bools), FALSE, TRUE, FALSE))
+    \/ (CanFail /\ \E tw \in {R(TwFams)} : AllocTryWith(tw, R(Bools), R(Bools), FALSE, TRUE))
+    \/ AllocValue(R(ValueFams), R({1, 3, 5, 40}), FALSE)
+    \/ (CanFail /\ AllocValue(R(ValueFams), R({5, 40, 700}), TRUE))
     \/ (\E w \in {R(Workloads)} : ScopeTwice(w))
     \/ (nops <= 4 /\ \E w \in {R(Workloads)} : ResetLoop(w, 6))
     \/ (LiveIds # {} /\ \E id \in {R(LiveIds)} :
